@@ -1,7 +1,17 @@
 # -*- coding: utf-8 -*-
 
 import functools as ft
-from typing import Dict, List, Mapping, Optional, Type, TypeVar, Union, cast
+from typing import (
+    Dict,
+    List,
+    Mapping,
+    Optional,
+    Set,
+    Type,
+    TypeVar,
+    Union,
+    cast,
+)
 
 from .._utils import lazy
 from ..exc import ExtensionError, SDLError
@@ -67,6 +77,7 @@ class ASTTypeBuilder:
         "_cache",
         "_extended_cache",
         "_extensions",
+        "_in_progress",
     )
 
     def __init__(
@@ -83,6 +94,10 @@ class ASTTypeBuilder:
         self._extended_cache = {}  # type: Dict[str, GraphQLType]
         self._extensions = type_extensions
         self._cache.update(additional_types)
+        # Types being built or extended. Fields refer to their type lazily;
+        # union members and implemented interfaces do not, so a union or an
+        # object reaching itself through them cannot be built.
+        self._in_progress = set()  # type: Set[str]
 
     def _collect_extensions(
         self, target_name: str, ext_type: TTypeExtension
@@ -128,6 +143,15 @@ class ASTTypeBuilder:
                 else:
                     type_def = cast(_ast.TypeDefinition, type_node)
 
+                if type_name in self._in_progress:
+                    raise SDLError(
+                        'Type "%s" refers to itself through its union members '
+                        "or interfaces" % type_name,
+                        [type_node],
+                    )
+
+                self._in_progress.add(type_name)
+
                 if isinstance(type_def, _ast.ObjectTypeDefinition):
                     built = self._build_object_type(
                         type_def
@@ -145,6 +169,7 @@ class ASTTypeBuilder:
                 else:
                     raise TypeError(type(type_def))
 
+                self._in_progress.discard(type_name)
                 self._cache[type_name] = built
                 return built
 
@@ -178,6 +203,15 @@ class ASTTypeBuilder:
         try:
             return self._extended_cache[name]
         except KeyError:
+            if "extend " + name in self._in_progress:
+                raise SDLError(
+                    'Type "%s" refers to itself through its union members '
+                    "or interfaces" % name,
+                    [n for n in getattr(type_, "nodes", []) if n],
+                )
+
+            self._in_progress.add("extend " + name)
+
             if isinstance(type_, ObjectType):
                 extended = self._extend_object_type(type_)  # type: GraphQLType
             elif isinstance(type_, InterfaceType):
@@ -193,6 +227,7 @@ class ASTTypeBuilder:
             else:
                 raise TypeError(type(type_))
 
+            self._in_progress.discard("extend " + name)
             self._extended_cache[name] = extended
             return extended
 
